@@ -1,0 +1,118 @@
+//go:build verif
+
+package ratelimit
+
+// Contracts for govc (see /verif/DESIGN.md).  Comment-only file.
+
+//@ import container github.com/AdguardTeam/golibs/container
+
+// The counter's mutex protects the ring and its ghost history; the ring
+// invariant R (declared with the verified contracts of golibs' RingBuffer in
+// /verif/contracts/dep-verified/container.spec) holds whenever it is free.
+//
+//@ lock RequestCounter self.mu
+//@   protects self.ring.cur, self.ring.full, elems(self.ring.buf), rlog[self.ring], rk[self.ring]
+//@   invariant R(self.ring)
+
+// Add(t): with N = ring size = limit + 1 and k pushes so far (this one
+// included), the request is above the limit exactly when the event N-1
+// positions earlier exists, has a positive timestamp and lies within the
+// interval - i.e. `limit` earlier events are inside [ts - ivl, ts].
+//
+//@ func (*RequestCounter).Add
+//@   property C09
+//@   requires r.mu != nil && r.ring != nil && unixNano(t) >= 0
+//@   modifies r.ring.cur, r.ring.full, elems(r.ring.buf), rlog[r.ring], rk[r.ring]
+//@   let ring = r.ring
+//@   ensures pushed: rk[ring] >= 1 && rlog[ring][rk[ring] - 1] == unixNano(t)
+//@   ensures window-exact: isAbove == (rk[ring] >= len(ring.buf) && rlog[ring][rk[ring] - len(ring.buf)] > 0 &&
+//@             unixNano(t) - rlog[ring][rk[ring] - len(ring.buf)] <= r.ivl)
+
+//@ import dns github.com/miekg/dns
+//@ import netip net/netip
+//@ import atomic sync/atomic
+
+// RC: a usable request counter.
+//@ pred RC(r *RequestCounter) = r != nil && r.mu != nil && r.ring != nil
+
+//@ func NewRequestCounter
+//@   property C09
+//@   requires num < 9223372036854775807
+//@   modifies rk
+//@   ensures RC(r) && fresh(r) && R(r.ring) && len(r.ring.buf) == num + 1 && r.ivl == ivl && rk[r.ring] == 0
+
+// BO: the invariant of a Backoff limiter - every entry of the request-counter
+// cache is a usable *RequestCounter, every entry of the hit cache an
+// *atomic.Uint64, and the configured prefix lengths fit their families (the
+// last part is what configuration validation must establish, C20).
+//
+//@ pred BO(l *Backoff) = l.reqCounters != nil && l.hitCounters != nil && l.reqCounters.cache != nil && l.hitCounters.cache != nil && l.reqCounters.cache != l.hitCounters.cache && l.allowlist != nil &&
+//@      0 <= l.ipv4SubnetKeyLen && l.ipv4SubnetKeyLen <= 32 && 0 <= l.ipv6SubnetKeyLen && l.ipv6SubnetKeyLen <= 128 &&
+//@      l.ipv4Count < 9223372036854775807 && l.ipv6Count < 9223372036854775807 &&
+//@      (forall k string :: chas[l.reqCounters.cache][k] ==> isptr(cval[l.reqCounters.cache][k], RequestCounter) && RC(asptr(cval[l.reqCounters.cache][k], RequestCounter))) &&
+//@      (forall k string :: chas[l.hitCounters.cache][k] ==> isptr(cval[l.hitCounters.cache][k], atomic.Uint64) && ref(cval[l.hitCounters.cache][k]) != 0)
+
+//@ pred keyOf(l *Backoff, ip netip.Addr) = prefixStr(prefixOf(ip, addrIs4(ip) ? l.ipv4SubnetKeyLen : l.ipv6SubnetKeyLen))
+
+//@ func (*Backoff).subnetKey
+//@   property C09 C20
+//@   requires BO(l) && addrValid(ip)
+//@   ensures key == keyOf(l, ip)
+
+//@ func validateAddr
+//@   property C09
+//@   ensures (err == nil) == addrValid(addr)
+
+//@ func (*Backoff).isBackoff
+//@   property C09
+//@   requires BO(l)
+//@   ensures in-backoff-only-above-count: ok ==> chas[l.hitCounters.cache][key] &&
+//@             deref(asptr(cval[l.hitCounters.cache][key], atomic.Uint64)) >= l.count
+
+//@ func (*Backoff).incBackoff
+//@   property C09
+//@   requires BO(l)
+//@   modifies chas[l.hitCounters.cache], cval[l.hitCounters.cache], allcells(atomic.Uint64)
+//@   ensures BO(l) && chas[l.hitCounters.cache][key]
+//@   ensures only-this-key: forall j string :: j != key ==> chas[l.hitCounters.cache][j] == old(chas[l.hitCounters.cache][j]) && cval[l.hitCounters.cache][j] == old(cval[l.hitCounters.cache][j])
+
+//@ func (*Backoff).hasHitRateLimit
+//@   property C09
+//@   requires BO(l) && count < 9223372036854775807
+//@   modifies chas[l.reqCounters.cache], cval[l.reqCounters.cache], chas[l.hitCounters.cache], cval[l.hitCounters.cache], allcells(atomic.Uint64), rk, rlog,
+//@            container.RingBuffer[int64].cur, container.RingBuffer[int64].full, allelems(int64)
+//@   ensures BO(l)
+//@   ensures only-this-key: forall j string :: j != subnetIPStr ==>
+//@             chas[l.reqCounters.cache][j] == old(chas[l.reqCounters.cache][j]) && cval[l.reqCounters.cache][j] == old(cval[l.reqCounters.cache][j]) &&
+//@             chas[l.hitCounters.cache][j] == old(chas[l.hitCounters.cache][j]) && cval[l.hitCounters.cache][j] == old(cval[l.hitCounters.cache][j])
+
+//@ interface Allowlist method IsAllowed
+//@   modifies nothing
+//@   ensures ok == allowedBy(this, ip) || err != nil
+
+//@ fun allowedBy(al Allowlist, ip netip.Addr) bool
+
+// IsRateLimited: the decision order of the property.
+//@ func (*Backoff).IsRateLimited
+//@   property C09
+//@   requires BO(l) && req != nil && len(req.Question) >= 1
+//@   modifies chas[l.reqCounters.cache], cval[l.reqCounters.cache], chas[l.hitCounters.cache], cval[l.hitCounters.cache], allcells(atomic.Uint64), rk, rlog,
+//@            container.RingBuffer[int64].cur, container.RingBuffer[int64].full, allelems(int64)
+//@   ensures BO(l)
+//@   ensures invalid-address-is-an-error: !addrValid(ip) ==> err != nil && !drop && !allowlisted
+//@   ensures any-refused-for-everyone: addrValid(ip) && l.refuseANY && old(req.Question[0].Qtype) == 255 ==> drop && !allowlisted && err == nil
+//@   ensures allowlisted-never-dropped: allowlisted ==> !drop && err == nil
+//@   ensures allowlisted-touch-no-counter: allowlisted || err != nil ==>
+//@             (forall j string :: chas[l.reqCounters.cache][j] == old(chas[l.reqCounters.cache][j]) && cval[l.reqCounters.cache][j] == old(cval[l.reqCounters.cache][j]) &&
+//@               chas[l.hitCounters.cache][j] == old(chas[l.hitCounters.cache][j]) && cval[l.hitCounters.cache][j] == old(cval[l.hitCounters.cache][j])) && rk == old(rk)
+//@   ensures other-subnets-unaffected: addrValid(ip) ==> (forall j string :: j != keyOf(l, ip) ==>
+//@             chas[l.reqCounters.cache][j] == old(chas[l.reqCounters.cache][j]) && cval[l.reqCounters.cache][j] == old(cval[l.reqCounters.cache][j]) &&
+//@             chas[l.hitCounters.cache][j] == old(chas[l.hitCounters.cache][j]) && cval[l.hitCounters.cache][j] == old(cval[l.hitCounters.cache][j]))
+
+//@ func (*Backoff).CountResponses
+//@   property C09 C20
+//@   requires BO(l) && resp != nil && len(resp.Question) >= 1 && l.respSzEst > 0
+//@   modifies chas[l.reqCounters.cache], cval[l.reqCounters.cache], chas[l.hitCounters.cache], cval[l.hitCounters.cache], allcells(atomic.Uint64), rk, rlog,
+//@            container.RingBuffer[int64].cur, container.RingBuffer[int64].full, allelems(int64)
+//@   ensures BO(l)
+//@   loop 1 invariant BO(l) && len(resp.Question) >= 1
